@@ -905,6 +905,10 @@ class Lib:
             raise self.E.Unsupported("arr() of a non-list")
         return VSpecTerm(v.arr)
 
+    def sp_dstate(self, st, node):
+        p = self.eng.coerce(st, self.eng.eval(st, node.args[0]), "U")
+        return VInt(st.ghost["DSTATE"][p])
+
     def sp_disk_read(self, st, node):
         p = self.eng.coerce(st, self.eng.eval(st, node.args[0]), "U")
         return VU(st.ghost["DISK"][p])
